@@ -133,6 +133,23 @@ pub fn gen_logical(rng: &mut Rng, reg: &PortableRegistry) -> Logical {
             per_path.push((p, rec, d, a));
         }
     }
+    // one setting in twelve is wide: dozens of unknown paths with derives, attributes and
+    // substitutes, more than any cap or small-size path in validation and the builders covers
+    let wide = rng.chance(1, 12);
+    let mut wide_subs: Vec<(String, String)> = vec![];
+    if wide {
+        let n = 18 + rng.usize_below(24);
+        for i in 0..n {
+            let p = format!("wide::m{}::T{i}", i % 5);
+            let (nd, na) = (1 + rng.usize_below(2), rng.usize_below(2));
+            let d: Vec<String> = rng.subset(DERIVES, nd).into_iter().map(|s| s.to_string()).collect();
+            let a: Vec<String> = rng.subset(ATTRS, na).into_iter().map(|s| s.to_string()).collect();
+            per_path.push((p.clone(), rng.chance(1, 2), d, a));
+            if rng.chance(2, 3) {
+                wide_subs.push((p, format!("::subst::W{i}")));
+            }
+        }
+    }
     // substitutes: sources among known composite paths and unknown ones
     let comp: Vec<String> = {
         let mut seen = BTreeSet::new();
@@ -164,6 +181,7 @@ pub fn gen_logical(rng: &mut Rng, reg: &PortableRegistry) -> Logical {
         };
         subs.push((src, tgt));
     }
+    subs.extend(wide_subs);
     // a rule whose source is a proper prefix (a module) of a known path: only exact keys may match
     if !comp.is_empty() && rng.chance(1, 4) {
         let p = rng.pick(&comp).clone();
